@@ -886,7 +886,8 @@ impl<'tcx> Dumper<'tcx> {
                     }
                     let t = tcx.type_of(did).instantiate_identity().skip_norm_wip();
                     let is_int = matches!(t.kind(), ty::Bool | ty::Char | ty::Int(_) | ty::Uint(_));
-                    if !(scalar_table(t) || is_int) {
+                    let is_slice_ref = matches!(t.kind(), ty::Ref(_, inner, _) if inner.is_str() || matches!(inner.kind(), ty::Slice(_) | ty::Array(..)));
+                    if !(scalar_table(t) || is_int || is_slice_ref) {
                         continue;
                     }
                     if let Ok(val) = tcx.const_eval_poly(did) {
@@ -898,7 +899,17 @@ impl<'tcx> Dumper<'tcx> {
                             mir::ConstValue::Indirect { alloc_id, offset } => {
                                 let alloc = tcx.global_alloc(alloc_id).unwrap_memory();
                                 let a = alloc.inner();
-                                if a.provenance().ptrs().is_empty() {
+                                if is_slice_ref {
+                                    // fat pointer (ptr, len) stored in memory: the length is the second word
+                                    let off = offset.bytes() as usize;
+                                    if a.len() >= off + 16 {
+                                        let b = a.inspect_with_uninit_and_ptr_outside_interpreter(off + 8..off + 16);
+                                        let mut w = [0u8; 8];
+                                        w.copy_from_slice(b);
+                                        c.set("slice_len", n(u64::from_le_bytes(w) as i128));
+                                        consts.set(&self.path(did), c);
+                                    }
+                                } else if a.provenance().ptrs().is_empty() {
                                     let off = offset.bytes() as usize;
                                     let bytes = a.inspect_with_uninit_and_ptr_outside_interpreter(off..a.len());
                                     c.set("bytes", s(hex(bytes)));
@@ -912,6 +923,20 @@ impl<'tcx> Dumper<'tcx> {
                                 };
                                 c.set("val", n(v));
                                 consts.set(&self.path(did), c);
+                            }
+                            mir::ConstValue::Slice { meta, .. } => {
+                                c.set("slice_len", n(meta as i128));
+                                consts.set(&self.path(did), c);
+                            }
+                            mir::ConstValue::Scalar(mir::interpret::Scalar::Ptr(..)) => {
+                                if let ty::Ref(_, inner, _) = t.kind() {
+                                    if let ty::Array(_, len) = inner.kind() {
+                                        if let Some(l) = len.try_to_target_usize(tcx) {
+                                            c.set("slice_len", n(l as i128));
+                                            consts.set(&self.path(did), c);
+                                        }
+                                    }
+                                }
                             }
                             _ => {}
                         }
